@@ -21,6 +21,7 @@ import (
 	"github.com/pkg/errors"
 
 	"seata.apache.org/seata-go/pkg/datasource/sql/undo"
+	"seata.apache.org/seata-go/pkg/util/log"
 )
 
 // ATTx
@@ -55,15 +56,18 @@ func (tx *ATTx) Rollback() error {
 func (tx *ATTx) commitOnAT() error {
 	originTx := tx.tx
 	if err := originTx.register(originTx.tranCtx); err != nil {
+		tx.rollbackAfterFailedCommit()
 		return err
 	}
 
 	undoLogMgr, err := undo.GetUndoLogManager(originTx.tranCtx.DBType)
 	if err != nil {
+		tx.rollbackAfterFailedCommit()
 		return err
 	}
 
 	if err = undoLogMgr.FlushUndoLog(originTx.tranCtx, originTx.conn.targetConn); err != nil {
+		tx.rollbackAfterFailedCommit()
 		if rerr := originTx.report(false); rerr != nil {
 			return errors.WithStack(rerr)
 		}
@@ -71,6 +75,7 @@ func (tx *ATTx) commitOnAT() error {
 	}
 
 	if err := originTx.commitOnLocal(); err != nil {
+		tx.rollbackAfterFailedCommit()
 		if rerr := originTx.report(false); rerr != nil {
 			return errors.WithStack(rerr)
 		}
@@ -79,4 +84,13 @@ func (tx *ATTx) commitOnAT() error {
 
 	originTx.report(true)
 	return nil
+}
+
+// rollbackAfterFailedCommit ends the local transaction when Commit cannot complete: database/sql
+// considers the Tx finished after Commit returns and hands the connection back to the pool, so it
+// must not stay inside an open transaction holding the branch's row locks.
+func (tx *ATTx) rollbackAfterFailedCommit() {
+	if rerr := tx.tx.target.Rollback(); rerr != nil {
+		log.Errorf("rollback local transaction after failed commit, err: %v", rerr)
+	}
 }
